@@ -11,6 +11,7 @@ import (
 	"unsafe"
 
 	"github.com/sharedcode/sop"
+	"github.com/sharedcode/sop/btree"
 	"github.com/sharedcode/sop/infs"
 	sd "github.com/sharedcode/sop/streamingdata"
 )
@@ -43,10 +44,18 @@ type trace struct {
 	created bool
 }
 
+var placements = []string{"segment", "cached", "active"}
+
+// newTrace: placement of the chunk bytes rotates over the three the streaming store accepts.
 func (d *driver) newTrace(name string) *trace {
+	return d.newTraceOn(name, (d.nStores+1)%3)
+}
+
+func (d *driver) newTraceOn(name string, variant int) *trace {
 	d.nTraces++
 	d.nStores++
-	t := &trace{d: d, name: name, store: fmt.Sprintf("st%d", d.nStores), variant: d.nStores, vals: map[int]valSpec{}}
+	name = name + "@" + placements[variant%3]
+	t := &trace{d: d, name: name, store: fmt.Sprintf("st%d", d.nStores), variant: variant, vals: map[int]valSpec{}}
 	d.w.emit(Ev{Ev: "TraceStart", Name: name})
 	return t
 }
@@ -238,7 +247,18 @@ func (t *trace) open(rid int, key string, start int) *json.Decoder {
 	if !found {
 		return nil
 	}
-	dec, err := t.s.GetCurrentValue(t.d.ctx)
+	// the two public ways to get at the value stream
+	var dec *json.Decoder
+	if rid%2 == 1 {
+		var it btree.Item[string, json.Decoder]
+		it, err = t.s.GetCurrentItem(t.d.ctx)
+		dec = it.Value
+		if err == nil && it.Key != key {
+			err = fmt.Errorf("GetCurrentItem returned key %q, cursor was positioned on %q", it.Key, key)
+		}
+	} else {
+		dec, err = t.s.GetCurrentValue(t.d.ctx)
+	}
 	if err != nil {
 		t.d.w.emit(Ev{Ev: "OpenError", R: rid, K: key, Start: start, Note: err.Error()})
 		return nil
